@@ -12,14 +12,16 @@
   * `prime_coefRT`, `prime_upoly_roundtrip`, `prime_upoly_roundtrip_beq` — its instance for prime
     fields;
   * `ext_roundtrip`, `ext_elemRoundTrip` — extension-field elements.
-  Still only stated (`C15.C15_full`, and `C15Full_remaining` below): univariate polynomials over
-  binary/extension fields (needs `CoefRT (binOps …)`, `CoefRT (extOps …)`: the parenthesised
-  coefficient scanner on printed elements), bivariate polynomials, additivity, the notational
-  variations.
+  * `bin_coefRT`, `bin_upoly_roundtrip(_beq)`, `ext_coefRT`, `ext_upoly_roundtrip(_beq)` —
+    univariate polynomials over binary and extension fields (instances at the fields the `Define`
+    functions return: `Props/C15FullDefine.lean`).
+  Still only stated (`C15.C15_full`, and `C15Full_remaining` below): bivariate polynomials,
+  additivity, the notational variations.
 -/
 import Algobra.Props.C15
 import Algobra.Props.C03
 import Algobra.Proofs.ParseRTPoly
+import Algobra.Proofs.ParseRTCoef
 import Algobra.Proofs.ExtField
 
 namespace Algobra.C15
@@ -256,21 +258,194 @@ example : Ext.parse 3 [2, 2, 1] "2a + 1" = .ok [1, 2] := by
   have e : (extOps 3 2 [2, 2, 1]).toStr [1, 2] = "2a + 1" := by decide
   rwa [e] at h
 
-/-! ### 5. what remains of `C15_full` -/
+/-! ### 5. univariate polynomials over binary and extension fields
 
-/-- NOT PROVED. The parts of `C15_full` that are still only validated by the correspondence run:
-    univariate polynomials over binary and extension fields (missing: `CoefRT` for `binOps` /
-    `extOps`, i.e. that `Parse.scanCoefNamed` consumes exactly a printed element, parenthesised
-    when it has several terms — then `upoly_roundtrip_generic` applies as it stands), bivariate
-    polynomials (`Parse.matchesB`), additivity and the notational variations for all of them.
-    Also note: `UPolyRoundTrip` as stated in `Props/C15.lean` has no bound on the number of
-    coefficients; an exponent `≥ 2^63` is a `strconv.ParseInt` range error, so the provable
-    statement carries `f.length ≤ 2^63` (a Go slice cannot be longer). -/
+  The coefficient pattern `RegexElement(true)` of these fields — one term `digits*(W(^digits+)?)?`
+  or a parenthesised " + "-joined list of them — consumes exactly a printed element
+  (`ParseRT.bin_coefRT`, `ext_coefRT`), so `upoly_roundtrip_generic` applies.  The `Lawful` record
+  (field structure; needed for the canonical-form reasoning about `setCoef`) is a hypothesis here;
+  for the fields the `Define` functions return it is supplied in `Props/C15FullDefine.lean`. -/
+
+/-- the coefficient syntax of a binary field reads printed elements back -/
+theorem bin_coefRT {w : String} (hw : AdmissibleName w) {n : Nat} (m : Nat) (hn : n < 64) :
+    CoefRT (binOps n m w) (fun a => a < 2 ^ n) :=
+  ParseRT.bin_coefRT ((admissible_iff_simple w).1 hw) m hn
+
+/-- Round trip of univariate polynomials over a binary field `GF(2^n)` (`n < 64`) whose variable
+    `w` is admissible, for every admissible polynomial variable `v` that cannot be confused with
+    `w`, in every ring or quotient ring: a well-formed, reduced polynomial of at most `2^63`
+    coefficients is returned by the parser.  `L` is any lawful structure on `binOps n m w` whose
+    valid elements are the masks `a < 2^n` (e.g. `BinField.binLawful`). -/
+theorem bin_upoly_roundtrip {K : Type} [Field K] {n m : Nat} {w : String}
+    (L : Lawful (binOps n m w) K) (hL : ∀ a, L.valid a ↔ a < 2 ^ n) (hw : AdmissibleName w)
+    (hn : n < 64) {v : String} (hv : AdmissibleName v) (hun : Unconfusable v w)
+    (mod : Option (UPoly Nat)) {f : UPoly Nat} (hf : WF L f) (hlen : f.length ≤ 2 ^ 63)
+    (hred : reduceIn { F := binOps n m w, varName := v, modulus := mod } f = some f) :
+    UPoly.parse { F := binOps n m w, varName := v, modulus := mod }
+      (UPoly.toStr (binOps n m w) v f) = .ok (some f) := by
+  have hown : ∀ w', (binOps n m w).ownVar = some w' → w' = w := by
+    intro w' h; injection h with e; exact e.symm
+  exact upoly_roundtrip_generic L ((bin_coefRT hw m hn).mono fun a ha => (hL a).1 ha) rfl
+    (by show ¬ popCount 0 > 1; rw [ParseRT.popCount_zero]; omega)
+    (fun w' h => by rw [hown w' h]; exact hw) hv (fun w' h => by rw [hown w' h]; exact hun)
+    mod hf hlen hred
+
+/-- the same in the form of `UPolyRoundTrip` (clause 1, default notation) -/
+theorem bin_upoly_roundtrip_beq {K : Type} [Field K] {n m : Nat} {w : String}
+    (L : Lawful (binOps n m w) K) (hL : ∀ a, L.valid a ↔ a < 2 ^ n) (hw : AdmissibleName w)
+    (hn : n < 64) {v : String} (hv : AdmissibleName v) (hun : Unconfusable v w)
+    (mod : Option (UPoly Nat)) {f : UPoly Nat}
+    (hf : UValid (binSpec n m w) { F := binOps n m w, varName := v, modulus := mod } f)
+    (hlen : f.length ≤ 2 ^ 63) :
+    ∃ g, UPoly.parse { F := binOps n m w, varName := v, modulus := mod }
+        (uToStrN {} (binOps n m w) v f) = .ok (some g) ∧
+      UPoly.equal (binOps n m w) f g = true := by
+  obtain ⟨hcanon, hval, hred⟩ := hf
+  have hwf : WF L f := ⟨fun c hc => (hL c).2 (hval c hc), hcanon⟩
+  refine ⟨f, ?_, (equal_iff_eq L hwf.1 hwf.1).2 rfl⟩
+  rw [uToStrN_default]
+  exact bin_upoly_roundtrip L hL hw hn hv hun mod hwf hlen hred
+
+section ExtPoly
+variable {p : Nat} [Fact p.Prime] {h32 : p - 1 < 2 ^ 32} {n : Nat} {g : List Nat}
+
+/-- the coefficient syntax of an extension field reads printed elements back -/
+theorem ext_coefRT (M : ExtField.Modulus h32 n g) (hn : n ≤ 2 ^ 63) :
+    CoefRT (extOps p n g) (ExtField.Valid h32 n) := by
+  have hp : p.Prime := Fact.out
+  have hov : ovOf (extOps p n g) = some ['a'] := rfl
+  have htext : ∀ a, coefText (extOps p n g) a =
+      (if UPoly.nTerms (primeOps p) a > 1 then "(" ++ UPoly.toStr (primeOps p) "a" a ++ ")"
+       else UPoly.toStr (primeOps p) "a" a).toList := fun _ => rfl
+  refine ⟨?_, ?_, ?_, ?_, ?_⟩
+  · intro a ha X hX
+    rw [hov] at hX ⊢
+    rw [htext]
+    exact ext_scan (ExtField.PL h32) ha.1 X hX
+  · intro a ha
+    rw [htext, trimParens_coef (ext_toStr_noParen a)]
+    exact ext_roundtrip M hn ha
+  · intro a ha
+    rw [htext]
+    exact ext_head (ExtField.PL h32) ha.1
+  · intro a _ h
+    show a = [1 % p]
+    rw [Nat.mod_eq_of_lt hp.one_lt]
+    cases a with
+    | nil => simp [extOps, UPoly.isOne] at h
+    | cons c t =>
+      cases t with
+      | nil =>
+        have : c = 1 := by simpa [extOps, UPoly.isOne, primeOps] using h
+        rw [this]
+      | cons _ _ => simp [extOps, UPoly.isOne] at h
+  · intro w hw
+    have : w = "a" := by injection hw with e; exact e.symm
+    subst this
+    exact ⟨'a', [], rfl, by decide⟩
+
+/-- Round trip of univariate polynomials over an extension field `F_p[a]/(g)` (`ExtField.Modulus`,
+    `n ≤ 2^63`), for every admissible polynomial variable `v` that cannot be confused with `a`, in
+    every ring or quotient ring.  `L` is any lawful structure on `extOps p n g` whose valid
+    elements are `ExtField.Valid` (e.g. `ExtField.extLawful M`). -/
+theorem ext_upoly_roundtrip {K : Type} [Field K] (M : ExtField.Modulus h32 n g) (hn : n ≤ 2 ^ 63)
+    (L : Lawful (extOps p n g) K) (hL : ∀ a, L.valid a ↔ ExtField.Valid h32 n a)
+    {v : String} (hv : AdmissibleName v) (hun : Unconfusable v "a")
+    (mod : Option (UPoly (UPoly Nat))) {f : UPoly (UPoly Nat)} (hf : WF L f)
+    (hlen : f.length ≤ 2 ^ 63)
+    (hred : reduceIn { F := extOps p n g, varName := v, modulus := mod } f = some f) :
+    UPoly.parse { F := extOps p n g, varName := v, modulus := mod }
+      (UPoly.toStr (extOps p n g) v f) = .ok (some f) := by
+  have hown : ∀ w', (extOps p n g).ownVar = some w' → w' = "a" := by
+    intro w' h; injection h with e; exact e.symm
+  exact upoly_roundtrip_generic L ((ext_coefRT M hn).mono fun a ha => (hL a).1 ha)
+    (by show UPoly.toStr (primeOps p) "a" [0] = "0"; rfl)
+    (by show ¬ UPoly.nTerms (primeOps p) [0] > 1; simp [UPoly.nTerms, UPoly.isZero, primeOps])
+    (fun w' h => by rw [hown w' h]; exact ⟨'a', [], by decide, by decide, by decide⟩) hv
+    (fun w' h => by rw [hown w' h]; exact hun) mod hf hlen hred
+
+/-- the same in the form of `UPolyRoundTrip` (clause 1, default notation) -/
+theorem ext_upoly_roundtrip_beq {K : Type} [Field K] (M : ExtField.Modulus h32 n g)
+    (hn : n ≤ 2 ^ 63) (L : Lawful (extOps p n g) K)
+    (hL : ∀ a, L.valid a ↔ ExtField.Valid h32 n a)
+    {v : String} (hv : AdmissibleName v) (hun : Unconfusable v "a")
+    (mod : Option (UPoly (UPoly Nat))) {f : UPoly (UPoly Nat)}
+    (hf : UValid (extSpec p n g) { F := extOps p n g, varName := v, modulus := mod } f)
+    (hlen : f.length ≤ 2 ^ 63) :
+    ∃ g', UPoly.parse { F := extOps p n g, varName := v, modulus := mod }
+        (uToStrN {} (extOps p n g) v f) = .ok (some g') ∧
+      UPoly.equal (extOps p n g) f g' = true := by
+  obtain ⟨hcanon, hval, hred⟩ := hf
+  have hwf : WF L f :=
+    ⟨fun c hc => (hL c).2 (by have := hval c hc; exact ⟨⟨this.2.2, this.1⟩, this.2.1⟩), hcanon⟩
+  refine ⟨f, ?_, (equal_iff_eq L hwf.1 hwf.1).2 rfl⟩
+  rw [uToStrN_default]
+  exact ext_upoly_roundtrip M hn L hL hv hun mod hwf hlen hred
+
+end ExtPoly
+
+-- non-vacuity: (a + 1)X^2 + (a^2 + 1) over GF(8) = GF(2)[a]/(a^3 + a + 1)
+example : UPoly.parse { F := binOps 3 11 "a", varName := "X", modulus := none }
+    "(a + 1)X^2 + (a^2 + 1)" = .ok (some [5, 0, 3]) := by
+  have : Fact (Irreducible (BinField.toPoly2 11)) := ⟨BinField.irreducible_toPoly2_eleven⟩
+  have h := bin_upoly_roundtrip
+    (BinField.binLawful (n := 3) (m := 11) (by norm_num) (by norm_num) (by norm_num) (by norm_num) "a")
+    (fun _ => Iff.rfl) ⟨'a', [], by decide, by decide, by decide⟩ (by norm_num) (v := "X")
+    ⟨'X', [], by decide, by decide, by decide⟩ (by unfold Unconfusable; decide) none
+    (f := [5, 0, 3])
+    ⟨fun c hc => by
+        have : c < 2 ^ 3 := by simp at hc; omega
+        exact this,
+      by simp, fun _ => by decide⟩ (by decide) rfl
+  have e : UPoly.toStr (binOps 3 11 "a") "X" [5, 0, 3] = "(a + 1)X^2 + (a^2 + 1)" := by
+    decide +kernel
+  rwa [e] at h
+
+-- non-vacuity: aX + (2a + 1) over GF(9) = F_3[a]/(a^2 + 2a + 2)
+example : UPoly.parse { F := extOps 3 2 [2, 2, 1], varName := "X", modulus := none }
+    "aX + (2a + 1)" = .ok (some [[1, 2], [0, 1]]) := by
+  have : Fact (Irreducible (toPoly (ExtField.PL ExtField.h32_three) [2, 2, 1])) :=
+    ⟨ExtField.gf9_irreducible⟩
+  have h := ext_upoly_roundtrip ExtField.gf9_modulus (by norm_num)
+    (ExtField.extLawful ExtField.gf9_modulus) (fun _ => Iff.rfl) (v := "X")
+    ⟨'X', [], by decide, by decide, by decide⟩ (by unfold Unconfusable; decide) none
+    (f := [[1, 2], [0, 1]])
+    ⟨fun c hc => by
+        have hc' : c = [1, 2] ∨ c = [0, 1] := by simpa using hc
+        rcases hc' with rfl | rfl
+        · exact ExtField.gf9_valid (by decide) ⟨by simp, fun _ => by decide⟩ (by decide)
+        · exact ExtField.gf9_valid (by decide) ⟨by simp, fun _ => by decide⟩ (by decide),
+      by simp, fun _ => by decide⟩ (by decide) rfl
+  have e : UPoly.toStr (extOps 3 2 [2, 2, 1]) "X" [[1, 2], [0, 1]] = "aX + (2a + 1)" := by decide
+  rwa [e] at h
+
+/-! ### 6. what remains of `C15_full` -/
+
+/-- `UPolyRoundTrip` of `Props/C15.lean` with the bound on the number of coefficients that the
+    exponent reader (`strconv.ParseInt`) imposes: an exponent `≥ 2^63` is a range error, so without
+    `f.length ≤ 2^63` the statement is false in the model (a Go slice cannot be longer anyway). -/
+def UPolyRoundTripB {α : Type} (S : FieldSpec α) : Prop :=
+  ∀ (v : String) (mod : Option (UPoly α)), AdmissibleName v →
+    (∀ w, S.ownVar = some w → Unconfusable v w) → ModOK S mod →
+    let R : UPoly.Ring α := { F := S.F, varName := v, modulus := mod }
+    (∀ f, UValid S R f → f.length ≤ 2 ^ 63 → ∀ N : Notation, N.ok →
+      ∃ g, UPoly.parse R (uToStrN N S.F v f) = .ok (some g) ∧ UPoly.equal S.F f g = true) ∧
+    (∀ f₁ f₂, UValid S R f₁ → UValid S R f₂ → f₁.length ≤ 2 ^ 63 → f₂.length ≤ 2 ^ 63 →
+      ∃ g, UPoly.parse R (UPoly.toStr S.F v f₁ ++ " + " ++ UPoly.toStr S.F v f₂) = .ok (some g) ∧
+        UPoly.equal S.F g (UPoly.add S.F f₁ f₂) = true)
+
+/-- NOT PROVED. What is still only validated by the correspondence run.  Of `UPolyRoundTripB` the
+    instance `N = {}` of the first clause IS proved for all three field families
+    (`prime_upoly_roundtrip_beq`, `bin_upoly_roundtrip_beq`, `ext_upoly_roundtrip_beq`, and the
+    `*_define` corollaries); missing are the other notations (`*`, no `^`, blanks around `+`,
+    letter case) and additivity.  The bivariate statement is unproved altogether
+    (`Parse.matchesB` is validated by correspondence only). -/
 def C15Full_remaining : Prop :=
-  (∀ p, Define.prime p = .ok (.prime p) → BPolyRoundTrip (primeSpec p)) ∧
+  (∀ p, Define.prime p = .ok (.prime p) →
+    UPolyRoundTripB (primeSpec p) ∧ BPolyRoundTrip (primeSpec p)) ∧
   (∀ q n m v, Define.bin Gen.dbText q = .ok (.bin n m) → AdmissibleName v →
-    UPolyRoundTrip (binSpec n m v) ∧ BPolyRoundTrip (binSpec n m v)) ∧
+    UPolyRoundTripB (binSpec n m v) ∧ BPolyRoundTrip (binSpec n m v)) ∧
   (∀ q p n g, Define.ext Gen.dbText q = .ok (.ext p n g) →
-    UPolyRoundTrip (extSpec p n g) ∧ BPolyRoundTrip (extSpec p n g))
+    UPolyRoundTripB (extSpec p n g) ∧ BPolyRoundTrip (extSpec p n g))
 
 end Algobra.C15
